@@ -224,6 +224,7 @@ func (n *node) addChild(c Node) (edge.StatsEdge, error) {
 	if edge == nil {
 		return nil, fmt.Errorf("unknown edge type %s", n.Provides())
 	}
+	verifEdgeCreated(edge, n.et.Task.ID, n.Name(), c.Name())
 	c.addParentEdge(edge)
 	return edge, nil
 }
